@@ -110,6 +110,7 @@ package cluster
 //@   at call proto.Marshal assert [parts-are-the-states] forall i int :: 0 <= i && i < len(all.Parts) ==> all.Parts[i] != nil && (all.Parts[i].Key in d.states)
 //@   ensures [encoding-error-sends-nothing] called("State).MarshalBinary") && ret1("State).MarshalBinary") != nil ==> result == nil && !called("proto.Marshal")
 //@   ensures [returns-the-encoding] called("proto.Marshal") ==> (ret1("proto.Marshal") == nil ? result == ret("proto.Marshal") : result == nil)
+//@   ensures [the-full-state-is-sent-whenever-it-can-be-encoded-joining-or-not] !(called("State).MarshalBinary") && ret1("State).MarshalBinary") != nil) ==> called("proto.Marshal")
 //@   loop 1 invariant fresh(all) && (all.Parts == nil || fresh(all.Parts)) && count("State).MarshalBinary") == len(visited) && len(all.Parts) == len(visited) && !called("proto.Marshal")
 //@   loop 1 invariant called("State).MarshalBinary") ==> ret1("State).MarshalBinary") == nil
 //@   loop 1 invariant d.states == old(d.states) && (forall k string :: (k in visited) ==> (k in d.states)) && dom(d.states) == old(dom(d.states))
